@@ -465,6 +465,13 @@ func sigsCmd(args []string) error {
 		if nk > 0 {
 			m = rng.Intn(nk + 1)
 		}
+		// one scenario in eight: at least two signers, all valid and in order, whose hash types alternate
+		// between a base type and the same type with ANYONECANPAY (each signature has its own digest)
+		alternate := i%8 == 3
+		if alternate {
+			nk = 2 + rng.Intn(2)
+			m = 2 + rng.Intn(nk-1)
+		}
 		var ks []keyPair
 		perm := rng.Perm(len(s.keys))
 		for j := 0; j < nk; j++ {
@@ -503,6 +510,9 @@ func sigsCmd(args []string) error {
 		}
 		// choose which keys sign: in order, out of order, wrong, empty...
 		mode := rng.Intn(6)
+		if alternate {
+			mode = 0
+		}
 		var order []int
 		for j := 0; j < nk; j++ {
 			order = append(order, j)
@@ -526,7 +536,11 @@ func sigsCmd(args []string) error {
 				cl = classes[rng.Intn(len(classes))]
 			}
 			htj, scj := ht, scode
-			if mixed {
+			if alternate {
+				if j%2 == 1 {
+					htj = ht ^ 0x80
+				}
+			} else if mixed {
 				htj = (ht & 0x40) | stdHashTypes[rng.Intn(len(stdHashTypes))]
 				if rng.Intn(2) == 0 {
 					htj = ht ^ 0x80 // same base type, ANYONECANPAY flipped
